@@ -499,7 +499,7 @@ func GetDisplayStyle(node *html.Node) string {
 	style := dom.GetAttribute(node, "style")
 	parts := rxDisplay.FindStringSubmatch(style)
 	if len(parts) >= 2 {
-		return parts[1]
+		return strings.ToLower(parts[1])
 	}
 
 	// Use default display
